@@ -210,7 +210,7 @@ def get_source_area(f, g):
     M_shifted[1:] = M_cum[:-1]
 
     # map back to original positions
-    g_rescaled = np.empty_like(g_flat)
+    g_rescaled = np.empty_like(M_shifted)
     g_rescaled[order] = M_shifted
 
     return g_rescaled.reshape(g.shape)
